@@ -6,6 +6,7 @@ import (
 	"time"
 
 	"github.com/honeycombio/refinery/collect/cache"
+	"github.com/honeycombio/refinery/sample"
 )
 
 // Read-only accessors for the simulation harness (/verif). This file is added
@@ -57,3 +58,12 @@ func (i *InMemCollector) VerifQueueLens(worker int) (incoming, peer int) {
 func (i *InMemCollector) VerifOutgoingLen() int { return len(i.tracesToSend) }
 
 func (i *InMemCollector) VerifHostname() string { return i.hostname }
+
+// VerifWorkerSamplers returns the worker's lazily created samplers by selector.
+func (i *InMemCollector) VerifWorkerSamplers(worker int) map[string]sample.Sampler {
+	m := map[string]sample.Sampler{}
+	for k, v := range i.workers[worker].datasetSamplers {
+		m[k] = v
+	}
+	return m
+}
